@@ -398,6 +398,25 @@ def run(chk):
     chk.guard("R4", lambda: raw_vector_rule(chk, "R4", member_only=True))
     from .c12 import import_parse_contracts
     chk.guard("R5", lambda: import_parse_contracts(chk, "R5"))
+    def r6():
+        # which instruction wins is decided per conversion only if the chain is entered with the CURRENT conversion's kind and fallibility
+        # at every call site of expand.rs (decided by C06.R2; imported for the lookup-chain entry points)
+        from ..core import Check
+        from . import c06
+        sub = Check("C06", chk.repo, chk.tier)
+        sub.guard("R2", lambda: c06.r2(sub))
+        chk.rule("R6", "every call of applicable_attr / get_for_kind / ghost in expand.rs passes the current conversion's kind and fallibility", floor=6)
+        for r_, why in sub.inconclusive:
+            if re.search(r"applicable_attr|get_for_kind|:ghost#|field_attr", why):
+                chk.inconc("R6", why)
+        for i in sub.instances:
+            if i.rule == "R2" and re.search(r":(applicable_attr|applicable_field_attr|get_for_kind|ghost|field_attr|field_attr_core)#\d+\((kind|fallible)\)", i.key):
+                if i.ok:
+                    chk.ok("R6", "call:" + i.key, i.file, i.line)
+                else:
+                    chk.bad("R6", "call:" + i.key, i.file, i.line, i.what, i.expected, i.found)
+    chk.guard("R6", r6)
+
 
 
 
@@ -420,3 +439,4 @@ def import_lookup_contracts(chk, rule, accessors, with_chain=True, desc=None):
             chk.ok(rule, "lookup:" + i.key, i.file, i.line)
         else:
             chk.bad(rule, "lookup:" + i.key, i.file, i.line, i.what, i.expected, i.found)
+
